@@ -687,8 +687,9 @@ func lcStopAt(kind string, idx, site int) string {
 	return h.finish(true)
 }
 
-// lcReuse: Stop A is parked between its lock section and RunDoneWait; the run ends, Stop B reports, a new
-// Start succeeds, then A is released: its wait now refers to the new run.
+// lcReuse: Stop A is parked between its lock section and its wait; the run ends, Stop B reports, a new Start
+// succeeds, then A is released: it must return at once (it waits for the run IT stopped), with the new run
+// untouched.  (Before the repair d9d435f its wait referred to the new run.)
 func lcReuse(kind string, idx int) string {
 	h := lcNew(kind, idx)
 	dastard.VerifPointsOn()
@@ -710,10 +711,10 @@ func lcReuse(kind string, idx int) string {
 		h.feedBlocks(1, false)
 	}
 	h.release(a.role)
-	blocked := !a.wait(150 * time.Millisecond)
-	if blocked {
-		dastard.VerifNote("note.stopBlockedOnNewRun")
-	}
+	// its run is over: it must return now, although a new run is active (1.5 s: generous under load; a Stop
+	// attached to the new run stays blocked until that run is stopped)
+	blocked := !a.wait(1500 * time.Millisecond)
+	dastard.VerifNote(fmt.Sprintf("obs.reuse.%d.%d", b2i(blocked), int(h.ds.GetState())))
 	return h.finish(true)
 }
 
